@@ -48,6 +48,30 @@ func main() {
 		eng.Dump(p, *dump)
 		return
 	}
+	if *prop == "all" {
+		// development aid (seed / benign suites): one load, every property;
+		// prints "RESULT property=<id> exit=<n>" after each property's output
+		worst := 0
+		for _, id := range rules.IDs() {
+			pr := rules.Get(id)
+			code := func() (code int) {
+				defer func() {
+					if r := recover(); r != nil {
+						fmt.Printf("UNDECIDED property=%s rule=- reason=checker panic: %v\n", id, r)
+						code = 2
+					}
+				}()
+				c := eng.NewCtx(p, pr.ID)
+				pr.Run(c, *tier)
+				return c.Finish(*verif, *tier, seed, time.Now(), pr.Explanation, pr.NotDecided, pr.Trusted, pr.Assumptions, nil).Exit
+			}()
+			fmt.Printf("RESULT property=%s exit=%d\n", id, code)
+			if code > worst {
+				worst = code
+			}
+		}
+		os.Exit(worst)
+	}
 	pr := rules.Get(*prop)
 	if pr == nil {
 		fmt.Fprintf(os.Stderr, "unknown property %q; have %v\n", *prop, rules.IDs())
